@@ -54,6 +54,9 @@ struct SchedulerBlockInfo {
     batch_mode: BatchMode,
     /// Whether this block has `NextStrategy::OnlyOne`.
     is_only_one_strategy: bool,
+    /// The replication requirement of the block (for the verification graph dump).
+    #[cfg(feature = "verif")]
+    verif_replication: Replication,
 }
 
 /// The `Scheduler` is the entity that keeps track of all the blocks of the job graph and when the
@@ -370,6 +373,8 @@ impl Scheduler {
             global_ids: global_ids.into_iter().collect(),
             batch_mode: block.batch_mode,
             is_only_one_strategy: block.is_only_one_strategy,
+            #[cfg(feature = "verif")]
+            verif_replication: replication,
         }
     }
 
@@ -440,6 +445,8 @@ impl Scheduler {
             global_ids,
             batch_mode: block.batch_mode,
             is_only_one_strategy: block.is_only_one_strategy,
+            #[cfg(feature = "verif")]
+            verif_replication: replication,
         }
     }
 }
@@ -507,6 +514,7 @@ impl Scheduler {
                     id: *id,
                     replicas,
                     only_one: info.is_only_one_strategy,
+                    replication: format!("{:?}", info.verif_replication),
                 }
             })
             .collect();
